@@ -307,6 +307,9 @@ def random_cases(count, seed):
             op = {"kind": "copy", "cat": cat, "from": frm, "to": to, "alpha": []}
         else:
             need = len({v for row in tgt["rows"] for v in row}) + rng.randint(0, 3)
+            if rng.random() < 0.08:
+                # fewer letters than the column has distinct values: the operation must be refused
+                need = max(1, len({row[tgt["attrs"].index(frm)] for row in tgt["rows"]}) - 1) if frm in tgt["attrs"] else 1
             mode = rng.random()
             if mode < 0.4:
                 alpha = list(ALPHA_POOL[:max(need, 1)])
